@@ -15,6 +15,14 @@ class FormatterV:
 def _to_string_via_display(eng, m, args, fr, dty):
     """blanket ToString: run the type's own Display::fmt (from MIR) into a recording Formatter"""
     ty = m.group(1)
+    recv = args[0]
+    mm = re.match(r'^(?:std::rc::)?(?:Rc|Box)<(.+)>$', ty)
+    if mm:
+        ty = mm.group(1)
+        v = eng.deref(recv, fr)
+        if isinstance(v, Cell):
+            recv = Ref(v)
+        args = [recv] + list(args[1:])
     if ty in ('str', 'String', 'std::string::String', 'BigInt', 'char') or ty.startswith('Cow<'):
         return NotImplemented
     callee = '<%s as Display>::fmt' % ty
@@ -138,3 +146,210 @@ def _str_replace(eng, m, args, fr, dty):
         else:
             out.append(b)
     return Vec(out)
+
+
+# ---------------------------------------------------------------- exact format!() (opt-in: eng.env['exact_fmt'])
+# The nightly lowers format_args!("..{}..", a) to Arguments::new::<N, M>(template bytes, &[Argument; M]); the
+# template encoding is documented in library/core/src/fmt/mod.rs (literal pieces with a length prefix, placeholders
+# 0b11______ with optional flags/width/precision/arg_index, a final zero byte).
+class FmtArgs:
+    def __init__(self, template, args):
+        self.template, self.args = template, args
+
+
+def _exact(eng):
+    return bool(eng.env.get('exact_fmt'))
+
+
+@model(r"^core::fmt::rt::Argument::<'_>::new_(display|debug|lower_hex|upper_hex)::<(.*)>$")
+def _fmt_arg_new(eng, m, args, fr, dty):
+    if not _exact(eng):
+        return NotImplemented
+    return Struct('FmtArg', [m.group(1), args[0], m.group(2)])
+
+
+@model(r"^(std::fmt::)?Arguments::<'_>::new::<\d+, \d+>$")
+def _fmt_arguments_new(eng, m, args, fr, dty):
+    if not _exact(eng):
+        return NotImplemented
+    tmpl = [b.c if b.c is not None else concrete(b.e) for b in items_of(eng, args[0], fr)]
+    arr = eng.deref(args[1], fr)
+    return FmtArgs(tmpl, list(arr.items))
+
+
+@model(r"^(std::fmt::)?Arguments::<'_>::from_str(_nonconst)?$")
+def _fmt_arguments_from_str(eng, m, args, fr, dty):
+    if not _exact(eng):
+        return NotImplemented
+    lit = [b.c if b.c is not None else concrete(b.e) for b in items_of(eng, args[0], fr)]
+    t = []
+    i = 0
+    while i < len(lit):
+        chunk = lit[i:i + 127]
+        t.append(len(chunk)); t.extend(chunk)
+        i += 127
+    t.append(0)
+    return FmtArgs(t, [])
+
+
+def _dec_bytes(n):
+    return [mkint(c, 'u8') for c in str(n).encode()]
+
+
+def display_value(eng, kind, ref, ty, fr, out, spec=None):
+    """append the Display/Debug rendering of *ref (declared type ty) to the list `out`"""
+    while ty.startswith('&'):
+        ty = ty[1:].lstrip()
+        if ty.startswith('mut '):
+            ty = ty[4:]
+        ref = eng.deref(ref, fr)
+    v = eng.deref(ref, fr)
+    base = re.sub(r'^(std::string::|std::rc::|alloc::string::)', '', ty)
+    if base in ('String', 'str') or (kind == 'display' and isinstance(v, (Vec, Slice)) and base.startswith(('Rc<String', 'Rc<std::string::String'))):
+        if isinstance(v, Cell):
+            v = v.v
+        if isinstance(v, Opaque):
+            out.append(mkint(0x3f, 'u8'))
+            return
+        if kind == 'debug':
+            out.append(mkint(0x22, 'u8'))
+        out.extend(items_of(eng, v, fr))
+        if kind == 'debug':
+            out.append(mkint(0x22, 'u8'))
+        return
+    if base.startswith('Rc<') and isinstance(v, Cell):
+        return display_value(eng, kind, Ref(v), base[3:-1], fr, out, spec)
+    if isinstance(v, Int):
+        c = v.c if v.c is not None else concrete(v.e)
+        if c is None:
+            raise Unsupported('formatting a symbolic integer')
+        if v.signed and c >= 1 << (v.w - 1):
+            c -= 1 << v.w
+        if kind in ('lower_hex', 'upper_hex'):
+            s = '%x' % c if kind == 'lower_hex' else '%X' % c
+        else:
+            s = str(c)
+        if spec and spec.get('width'):
+            pad = '0' if spec.get('zero') else ' '
+            s = s.rjust(spec['width'], pad)
+        out.extend(mkint(ch, 'u8') for ch in s.encode())
+        return
+    if isinstance(v, Bool):
+        c = v.c if v.c is not None else concrete(v.e)
+        if c is None:
+            raise Unsupported('formatting a symbolic bool')
+        out.extend(mkint(ch, 'u8') for ch in (b'true' if c else b'false'))
+        return
+    if isinstance(v, Opaque):
+        out.append(mkint(0x3f, 'u8'))
+        return
+    trait = 'Display' if kind == 'display' else 'Debug'
+    if base == 'BigInt':
+        r = eng.do_call('<BigInt as ToString>::to_string', [ref], fr)
+        out.extend(items_of(eng, r, fr))
+        return
+    for callee in ('<%s as %s>::fmt' % (base, trait), '<%s as std::fmt::%s>::fmt' % (base, trait)):
+        fn = eng.resolve(callee)
+        if fn is not None:
+            f = FormatterV()
+            r = eng.run(eng.funcs[fn], [ref if isinstance(ref, Ref) else Ref(Cell(v)), Ref(Cell(f))])
+            out.extend(f.buf.items)
+            return
+    if kind == 'debug':
+        out.append(mkint(0x3f, 'u8'))          # Debug text of a type without a MIR body: diagnostic only
+        return
+    raise Unsupported('exact formatting of %s (%s)' % (ty, kind))
+
+
+def render(eng, fa, fr):
+    t = fa.template
+    out = []
+    i = 0
+    nxt = 0
+    while True:
+        b = t[i]
+        i += 1
+        if b == 0:
+            break
+        if b < 0x80:
+            out.extend(mkint(c, 'u8') for c in t[i:i + b])
+            i += b
+        elif b == 0x80:
+            ln = t[i] | (t[i + 1] << 8)
+            i += 2
+            out.extend(mkint(c, 'u8') for c in t[i:i + ln])
+            i += ln
+        elif b >= 0xC0:
+            spec = {}
+            if b & 1:
+                flags = t[i] | (t[i + 1] << 8) | (t[i + 2] << 16) | (t[i + 3] << 24)
+                i += 4
+                spec['flags'] = flags
+                spec['zero'] = bool(flags & (1 << 24)) or bool(flags & 8)
+            if b & 2:
+                spec['width'] = t[i] | (t[i + 1] << 8)
+                i += 2
+            if b & 4:
+                spec['precision'] = t[i] | (t[i + 1] << 8)
+                i += 2
+            if b & 8:
+                nxt = t[i] | (t[i + 1] << 8)
+                i += 2
+            if b & 0x30:
+                raise Unsupported('indirect width/precision in format template')
+            a = fa.args[nxt]
+            nxt += 1
+            kind, ref, ty = a.fields
+            display_value(eng, kind, ref, ty, fr, out, spec)
+        else:
+            raise Unsupported('format template byte %#x' % b)
+    return out
+
+
+@model(r'^format$|^std::fmt::format$|^alloc::fmt::format$|^format::<.*>$')
+def _format_exact(eng, m, args, fr, dty):
+    if not _exact(eng) or not isinstance(args[0], FmtArgs):
+        return NotImplemented
+    return Vec(render(eng, args[0], fr))
+
+
+@model(r'^(std::fmt::)?Formatter::<.*>::write_fmt$|^(std::fmt::)?Formatter::write_fmt$|^<(std::string::)?String as (std::fmt::)?Write>::write_fmt$')
+def _write_fmt_exact(eng, m, args, fr, dty):
+    if not _exact(eng) or not isinstance(args[1], FmtArgs):
+        return NotImplemented
+    f = eng.deref(args[0], fr)
+    items = render(eng, args[1], fr)
+    if isinstance(f, FormatterV):
+        f.buf.items.extend(items)
+    elif isinstance(f, Vec):
+        f.items.extend(items)
+    return Ok(UNIT)
+
+
+@model(r'^<(usize|u8|u16|u32|u64|u128|isize|i8|i16|i32|i64|i128|bool) as ToString>::to_string$')
+def _int_to_string(eng, m, args, fr, dty):
+    out = []
+    display_value(eng, 'display', args[0], m.group(1), fr, out)
+    return Vec(out)
+
+
+for _fn in (_fmt_arg_new, _fmt_arguments_new, _fmt_arguments_from_str, _format_exact, _write_fmt_exact, _int_to_string):
+    for _i, (_p, _f) in enumerate(MODELS):
+        if _f is _fn:
+            MODELS.insert(0, MODELS.pop(_i))
+            break
+
+
+@model(r"^(std::fmt::)?Formatter::<'_>::debug_\w+$|^(std::fmt::)?Formatter::debug_\w+$|^(std::fmt::)?Debug(Struct|Tuple|List|Map|Set)::<.*>::\w+$")
+def _fmt_debug_helpers(eng, m, args, fr, dty):
+    """derive(Debug) output is diagnostic text only: rendered as '?'"""
+    f = eng.deref(args[0], fr)
+    if isinstance(f, FormatterV):
+        f.buf.items.append(mkint(0x3f, 'u8'))
+    return Ok(UNIT)
+
+
+for _i, (_p, _f) in enumerate(MODELS):
+    if _f is _fmt_debug_helpers:
+        MODELS.insert(0, MODELS.pop(_i))
+        break
